@@ -700,3 +700,7 @@ benign('C03', 'system entry point: model branch returns early', 'atomman/core/Sy
 mutant('C10', 'regress-bec9910 System.model: cell stored without a unit by default', 'atomman/core/System.py', "              box_unit: Optional[str] = 'angstrom',", "              box_unit: Optional[str] = None,", 'SYSTEM-MODEL')
 mutant('C10', 'regress-bec9910 system_model writer: cell stored without a unit by default', 'atomman/dump/system_model/dump.py', "         box_unit: Optional[str] = 'angstrom',", "         box_unit: Optional[str] = None,", 'SYSTEM-MODEL')
 benign('C10', 'default unit of the cell filled in inside System.model', 'atomman/core/System.py', "        model['atomic-system']['box'] = self.box.model(length_unit=box_unit)['box']", "        model['atomic-system']['box'] = self.box.model(length_unit=box_unit)['box'] if box_unit is not None else self.box.model(length_unit=None)['box']")
+
+# regressions of the fix: commit 256214a (reduce_indices on blocks of index sets)
+mutant('C16', 'regress-256214a reduce_indices divides through the transposed block', 'atomman/tools/miller.py', "    red_indices = indices // n[..., np.newaxis]\n", "    red_indices = (indices.T // n).T\n", 'UTIL')
+benign('C16', 'reduce_indices: divisor expanded by expand_dims', 'atomman/tools/miller.py', "    red_indices = indices // n[..., np.newaxis]\n", "    red_indices = indices // np.expand_dims(n, -1)\n")
